@@ -18,15 +18,15 @@ Proof. intros c acts s H. exact (run_acts_G c acts init s G_init H). Qed.
 Print Assumptions C11_open_run_holds_the_guard.
 
 (* ---------------- running_implies_map_is_live ---------------- *)
-Theorem C11_running_implies_map_is_live_v2_refuted :
-  match final (cfg_v2 true) w_blind_delete_v2 with
+Theorem C11_running_implies_map_is_live_v2_shipped_refuted :
+  match final (cfg_v2_shipped true) w_blind_delete_v2 with
   | Some s => quiescent s && status_eqb (s_status s) Running && onat_eqb (s_map s) None
               && onat_eqb (s_cur s) (Some 1) && is_live (s_runs s 1)
               && negb (running_map_ok s) && negb (agrees s)
   | None => false
   end = true.
 Proof. exact blind_delete_v2. Qed.
-Print Assumptions C11_running_implies_map_is_live_v2_refuted.
+Print Assumptions C11_running_implies_map_is_live_v2_shipped_refuted.
 
 Theorem C11_running_implies_map_is_live_v1_refuted :
   match final (cfg_v1 true) w_double_start_v1 with
@@ -39,8 +39,8 @@ Print Assumptions C11_running_implies_map_is_live_v1_refuted.
 (* ---------------- wait_returns_that_runs_result ---------------- *)
 (* v2: Stop finds nothing and WaitPipeline returns the PREVIOUS run's recorded error at once, while the
    pipeline is Running and its run is live *)
-Theorem C11_wait_returns_that_runs_result_v2_refuted :
-  match trace (cfg_v2 true) init w_blind_delete_calls_v2 with
+Theorem C11_wait_returns_that_runs_result_v2_shipped_refuted :
+  match trace (cfg_v2_shipped true) init w_blind_delete_calls_v2 with
   | Some (ls, s) =>
       is_live (s_runs s 1) && status_eqb (s_status s) Running
       && has_label (fun l => match l with LRet 2 RetNotRunning => true | _ => false end) ls
@@ -48,7 +48,7 @@ Theorem C11_wait_returns_that_runs_result_v2_refuted :
   | None => false
   end = true.
 Proof. exact blind_delete_calls_v2. Qed.
-Print Assumptions C11_wait_returns_that_runs_result_v2_refuted.
+Print Assumptions C11_wait_returns_that_runs_result_v2_shipped_refuted.
 
 (* ---------------- status_agrees_with_last_run_end ---------------- *)
 Theorem C11_status_agrees_with_last_run_end_v1_refuted :
@@ -68,21 +68,21 @@ Proof. exact start_in_backoff_degrades_live_run_v2. Qed.
 Print Assumptions C11_status_agrees_with_last_run_end_v2_refuted.
 
 (* ---------------- teardown_releases_guards ---------------- *)
-Theorem C11_teardown_releases_guards_v2_refuted :
-  (match final (cfg_v2 false) w_dlq_open_leak_v2 with
+Theorem C11_teardown_releases_guards_v2_shipped_refuted :
+  (match final (cfg_v2_shipped false) w_dlq_open_leak_v2 with
    | Some s => quiescent s && match live_runs s with [] => true | _ => false end && negb (guards_free s)
    | None => false
    end = true)
-  /\ (match trace (cfg_v2 false) init w_dlq_open_leak_restart_v2 with
+  /\ (match trace (cfg_v2_shipped false) init w_dlq_open_leak_restart_v2 with
       | Some (ls, _) => has_label (fun l => match l with LRet 1 RetErr => true | _ => false end) ls
       | None => false
       end = true)
-  /\ (match final (cfg_v2 true) w_proc_open_leak_v2 with
+  /\ (match final (cfg_v2_shipped true) w_proc_open_leak_v2 with
       | Some s => quiescent s && match live_runs s with [] => true | _ => false end && negb (guards_free s)
       | None => false
       end = true).
 Proof. exact (conj dlq_open_leak_v2 (conj dlq_open_leak_refuses_start_v2 proc_open_leak_v2)). Qed.
-Print Assumptions C11_teardown_releases_guards_v2_refuted.
+Print Assumptions C11_teardown_releases_guards_v2_shipped_refuted.
 
 (* ================================================================================================
    The default engine (v1) satisfies the statements for EVERY interleaving in which no Start takes its
